@@ -235,6 +235,20 @@ func runRevStore(r *simcore.Run, thorough bool) {
 					// rejected and indeed inconsistent: good. The
 					// store must be unchanged: continue with honest.
 				}
+				// A rejected secret was not received: the store neither
+				// answers for that height nor changes what it answers
+				// for the earlier ones, and its serialisation is what it
+				// was (no draw: replay files stay valid).
+				if got, errL := store.LookUp(h); errL == nil {
+					what := "a value that is not the peer's secret"
+					if *got == hash {
+						what = "the rejected value"
+					}
+					r.Fail("store-serves-rejected", "store rejected a %s secret for height %d, yet LookUp(%d) now succeeds and returns %s", fault, h, h, what)
+				}
+				if accepted > 0 {
+					checkLookups(r, store, accepted, honest, 8)
+				}
 				hh := chainhash.Hash(honest(h))
 				if err2 := store.AddNextEntry(&hh); err2 != nil {
 					r.Fail("store-corrupted-by-reject", "after rejecting a bad secret at height %d the store also rejects the honest one: %v", h, err2)
